@@ -83,6 +83,8 @@ PROPS["C02"]["groups"].append(CL_FAIR)
 PROPS["C01"]["groups"].append(CL_FAIR)
 PROPS["C03"]["groups"].append(CL_FAIR)
 PROPS["C04"]["groups"].append(CL_FAIR)
+# exactly-once dispatch across the wire: a command whose acknowledgements are cut off for many seconds must not reach the executor twice
+PROPS["C02"]["groups"].append(dict(name="wire-partition", harness="comms", weight=1, runs=dict(quick=200, thorough=6000), opts=dict(lossy=False, partition=True)))
 PROPS["C01"]["groups"].append(CL_FREE)
 PROPS["C02"]["groups"].append(CL_FREE)
 PROPS["C03"]["groups"].append(CL_FREE)
